@@ -98,6 +98,9 @@ struct Frame {
     body: Vec<u8>,
     /// keeps the descriptors to send alive
     msg: Option<MarshalledMessage>,
+    /// the byte of the frame the descriptors ride on: the peer attaches them to the write that starts there
+    /// (0 = the first byte, what rustbus itself does; the D-Bus specification allows any byte of the message)
+    fd_pos: usize,
 }
 
 fn gen_frame(rng: &mut Prng, pool: &Pool, idx: usize, serial: u32, body_len: usize, fds: &[usize]) -> Frame {
@@ -144,12 +147,24 @@ fn gen_frame(rng: &mut Prng, pool: &Pool, idx: usize, serial: u32, body_len: usi
     let body = msg.get_buf().to_vec();
     let mut bytes = hdr;
     bytes.extend_from_slice(&body);
-    Frame { bytes, fds: fds.to_vec(), serial, member, body, msg: Some(msg) }
+    let fd_pos = if fds.is_empty() || rng.chance(1, 2) {
+        0
+    } else {
+        match rng.below(5) {
+            0 => 1,
+            1 => rng.range(2, 15) as usize,
+            2 => rng.range(16, (bytes.len() - 1).max(17) as u64) as usize,
+            3 => bytes.len() - 1,
+            _ => rng.range(1, (bytes.len() - 1) as u64) as usize,
+        }
+        .min(bytes.len() - 1)
+    };
+    Frame { bytes, fds: fds.to_vec(), serial, member, body, msg: Some(msg), fd_pos }
 }
 
 /// a frame of raw bytes (error cases): no descriptors
 fn raw_frame(bytes: Vec<u8>) -> Frame {
-    Frame { bytes, fds: vec![], serial: 0, member: String::new(), body: vec![], msg: None }
+    Frame { bytes, fds: vec![], serial: 0, member: String::new(), body: vec![], msg: None, fd_pos: 0 }
 }
 
 struct Link {
@@ -434,10 +449,14 @@ impl<'a> Runner<'a> {
             let mut raw: Vec<RawFd> = Vec::new();
             for (i, f) in frames.iter().enumerate() {
                 if !f.fds.is_empty() {
-                    if starts[i] == pos {
+                    let at = starts[i] + f.fd_pos;
+                    if at == pos {
                         raw = f.msg.as_ref().unwrap().body.get_raw_fds();
-                    } else if starts[i] > pos && starts[i] < pos + c {
-                        panic!("engine bug: chunk spans into a descriptor-carrying message");
+                        if f.fd_pos > 0 {
+                            self.out.hit("descriptors_on_a_later_byte");
+                        }
+                    } else if at > pos && at < pos + c {
+                        panic!("engine bug: chunk spans over the byte a message's descriptors ride on");
                     }
                 }
             }
@@ -525,7 +544,7 @@ impl<'a> Runner<'a> {
         let complete = pos == stream.len();
         let req = format!(
             "c09.run {} {}",
-            frames.iter().map(|f| format!("{}/{}", hex(&f.bytes), dots(&f.fds))).collect::<Vec<_>>().join("|"),
+            frames.iter().map(|f| if f.fd_pos == 0 { format!("{}/{}", hex(&f.bytes), dots(&f.fds)) } else { format!("{}/{}@{}", hex(&f.bytes), dots(&f.fds), f.fd_pos) }).collect::<Vec<_>>().join("|"),
             s.script.join(",")
         );
         // ---- the property, directly ----
@@ -595,8 +614,8 @@ fn chunks_from(splits: &BTreeSet<usize>, frames: &[Frame]) -> Vec<usize> {
     let mut pts: BTreeSet<usize> = splits.clone();
     let mut p = 0;
     for f in frames {
-        if !f.fds.is_empty() && p > 0 {
-            pts.insert(p);
+        if !f.fds.is_empty() && p + f.fd_pos > 0 {
+            pts.insert(p + f.fd_pos);
         }
         p += f.bytes.len();
     }
